@@ -5,9 +5,13 @@ import (
 	"errors"
 	"fmt"
 	"io"
+	"regexp"
+	"strconv"
 
 	"github.com/goccy/go-json"
 )
+
+var jsonIntegerPattern = regexp.MustCompile(`^-?(0|[1-9][0-9]*)$`)
 
 func (o *CandidateNode) setScalarFromJson(value interface{}) error {
 	o.Kind = ScalarNode
@@ -117,6 +121,18 @@ func (o *CandidateNode) UnmarshalJSON(data []byte) error {
 	}
 	log.Debug("UnmarshalJSON -  its a scalar!")
 	// otherwise, must be a scalar
+
+	// an integer that fits 64 bits keeps its digits: going through float64
+	// (below) rounds everything above 2^53
+	if integerText := string(bytes.TrimSpace(data)); jsonIntegerPattern.MatchString(integerText) {
+		if _, err := strconv.ParseInt(integerText, 10, 64); err == nil {
+			o.Kind = ScalarNode
+			o.Tag = "!!int"
+			o.Value = integerText
+			return nil
+		}
+	}
+
 	var scalar interface{}
 	err := json.Unmarshal(data, &scalar)
 
